@@ -252,6 +252,22 @@ def t_module_state(h):
                             written = True
                 if written:
                     unknown.append(f'{mod}.{nm}')
+    # memoised functions: a result cache is module-level state, too
+    for pat in SESSION_PATH:
+        for path in sorted(glob.glob(os.path.join(root, pat))):
+            mod = os.path.relpath(path, root)[:-3].replace(os.sep, '.')
+            if mod.endswith('.__init__'):
+                mod = mod[:-9]
+            try:
+                tree = ast.parse(open(path, encoding='utf-8').read())
+            except SyntaxError:
+                continue
+            for fn in ast.walk(tree):
+                if isinstance(fn, (ast.FunctionDef, ast.AsyncFunctionDef)):
+                    for d in fn.decorator_list:
+                        txt = ast.unparse(d)
+                        if any(x in txt for x in ('lru_cache', 'cache', 'memo')) and f'{mod}.{fn.name}' not in K.MEMOISED:
+                            unknown.append(f'{mod}.{fn.name} (@{txt})')
     if unknown:
         from pyvc.values import OutOfSubset
         raise OutOfSubset(f'module-level state outside the inventory of contracts/C11.py is written on the session path: {unknown}')
